@@ -169,6 +169,54 @@ fn eval(a: &[&str]) -> String {
             let mp: u128 = u128::try_from(&m).unwrap_or(u128::MAX) | 1;
             format!("{} {} {} {} {} {} {} {}", t!(u32), t!(i64), t!(u64), t!(i128), t!(u128), t!(usize), show_u(&(&u & mp).into()), &u % mp)
         }
+        "inord" => {
+            // NumOrd / NumHash of a big integer against primitive integers of every width (usize
+            // and u64 / u128 are wider than a machine word in the 32-bit builds): `inord <int> <u128> <neg>`
+            use num_order::{NumHash, NumOrd};
+            let x = int(a[1]);
+            let p: u128 = a[2].parse().unwrap();
+            let neg = a[3] == "1";
+            fn o(v: Option<core::cmp::Ordering>) -> char {
+                match v {
+                    Some(core::cmp::Ordering::Less) => '<',
+                    Some(core::cmp::Ordering::Equal) => '=',
+                    Some(core::cmp::Ordering::Greater) => '>',
+                    None => '?',
+                }
+            }
+            fn h<T: NumHash>(v: &T) -> u64 {
+                use std::hash::Hasher;
+                let mut s = std::collections::hash_map::DefaultHasher::new();
+                v.num_hash(&mut s);
+                s.finish()
+            }
+            let mut out = String::new();
+            macro_rules! un {
+                ($t:ty) => {{
+                    let q = p as $t;
+                    out.push(o(x.num_partial_cmp(&q)));
+                    out.push(o(q.num_partial_cmp(&x)));
+                    if let Ok(u) = UBig::try_from(x.clone()) {
+                        out.push(o(u.num_partial_cmp(&q)));
+                        out.push(o(q.num_partial_cmp(&u)));
+                        out.push(if u.num_eq(&q) == (h(&u) == h(&q)) || !u.num_eq(&q) { 'h' } else { 'H' });
+                    }
+                    out.push(' ');
+                }};
+            }
+            macro_rules! si {
+                ($t:ty) => {{
+                    let q = if neg { (p as $t).wrapping_neg() } else { p as $t };
+                    out.push(o(x.num_partial_cmp(&q)));
+                    out.push(o(q.num_partial_cmp(&x)));
+                    out.push(if !x.num_eq(&q) || h(&x) == h(&q) { 'h' } else { 'H' });
+                    out.push(' ');
+                }};
+            }
+            un!(u8); un!(u16); un!(u32); un!(u64); un!(u128); un!(usize);
+            si!(i8); si!(i16); si!(i32); si!(i64); si!(i128); si!(isize);
+            out
+        }
         "ilog2b" => {
             let (lb, ub) = uint(a[1]).log2_bounds();
             format!("{:08x} {:08x}", lb.to_bits(), ub.to_bits())
@@ -337,6 +385,28 @@ fn eval(a: &[&str]) -> String {
                 "b" => postcard::from_bytes::<F>(&b).map(|v| format!("OK {}", show_f(&v))).unwrap_or("ERR".into()),
                 "r" => postcard::from_bytes::<RBig>(&b).map(|v| format!("OK {}", show_r(&v))).unwrap_or("ERR".into()),
                 _ => postcard::from_bytes::<Relaxed>(&b).map(|v| format!("OK {}/{}", show_i(v.numerator()), show_u(v.denominator()))).unwrap_or("ERR".into()),
+            }
+        }
+        // ---------------- a human-readable deserializer that hands over what it holds (serde's value
+        // deserializers): the readable decoders ask for a string and get a sequence / a map instead, so
+        // their visit_seq / visit_map run in readable mode. `de_val <r|x> <seq|map> tok...`: seq takes the
+        // elements, map takes key value pairs.
+        "de_val" => {
+            use serde::de::value::{Error as VErr, MapDeserializer, SeqDeserializer};
+            use serde::Deserialize;
+            let toks: Vec<&str> = a[3..].to_vec();
+            fn fin<T>(r: Result<T, VErr>, show: impl Fn(&T) -> String) -> String {
+                match r {
+                    Ok(v) => format!("OK {}", show(&v)),
+                    Err(_) => "ERR".into(),
+                }
+            }
+            let show_x = |v: &Relaxed| format!("{}/{}", show_i(v.numerator()), show_u(v.denominator()));
+            match (a[1], a[2]) {
+                ("r", "seq") => fin(RBig::deserialize(SeqDeserializer::<_, VErr>::new(toks.into_iter())), |v| show_r(v)),
+                ("x", "seq") => fin(Relaxed::deserialize(SeqDeserializer::<_, VErr>::new(toks.into_iter())), show_x),
+                ("r", _) => fin(RBig::deserialize(MapDeserializer::<_, VErr>::new(toks.chunks(2).filter(|c| c.len() == 2).map(|c| (c[0], c[1])))), |v| show_r(v)),
+                _ => fin(Relaxed::deserialize(MapDeserializer::<_, VErr>::new(toks.chunks(2).filter(|c| c.len() == 2).map(|c| (c[0], c[1])))), show_x),
             }
         }
         // ---------------- a self-describing binary format (CBOR): structs travel as maps, so the
